@@ -126,6 +126,17 @@ namespace vt
       run_strings< Root, fam3, tc_full, AA, MR, TE, LFCRLF >( sigma, maxlen );
    }
 
+   // must_if controls (C05): a rule with a message raises on local failure (or as the selective raise_on_failure says)
+   template< typename Root >
+   void cfgs_mi( const std::string& sigma, int maxlen )
+   {
+      run_strings< Root, pegtl::nothing, tc_mi1, AA, MR, TE, LFCRLF >( sigma, maxlen );
+      run_strings< Root, pegtl::nothing, tc_mi2, AA, MR, TE, LFCRLF >( sigma, maxlen );
+      run_strings< Root, fam3, tc_mi1, AA, MO, TL, LFCRLF >( sigma, maxlen );
+      run_strings< Root, fam3, tc_mi2, AA, MR, TE, LFCRLF >( sigma, maxlen );
+      run_strings< Root, fam1, tc_mi2, AN, MO, TE, LFCRLF >( sigma, maxlen );
+   }
+
    // limits (C18): action family 4 on input_with_depth< memory_input >
    template< typename Root >
    void cfgs_lim( const std::string& sigma, int maxlen )
